@@ -100,6 +100,18 @@ impl<'ctx> PriceRepositoryBuilder<'ctx> {
             .or_default()
             .entry(price_of.commodity)
             .or_insert(Entry(PriceSource::Ledger, Vec::new()));
+        #[cfg(feature = "verif")]
+        crate::verif::emit("price.insert", || {
+            format!(
+                "{:?}|{}|{}|{}|{}|{}",
+                source,
+                date,
+                price_of,
+                price_with,
+                *stored_source < source,
+                entries.len()
+            )
+        });
         if *stored_source < source {
             *stored_source = source;
             entries.clear();
@@ -337,6 +349,24 @@ impl<'ctx> NaivePriceRepository<'ctx> {
                 queue.push(next);
             }
         }
+        #[cfg(feature = "verif")]
+        crate::verif::emit("price.table", || {
+            let mut rows: Vec<String> = distances
+                .iter()
+                .map(|(c, WithDistance(d, rate))| {
+                    format!(
+                        "{}:{}:{}:{}:{}",
+                        c.as_str(),
+                        d.num_ledger_conversions,
+                        d.num_all_conversions,
+                        d.staleness.num_days(),
+                        rate
+                    )
+                })
+                .collect();
+            rows.sort();
+            format!("{}|{}|{}", price_with.as_str(), date, rows.join(","))
+        });
         distances
     }
 }
